@@ -245,6 +245,11 @@ def cache_arg(rng, unhashable=False):
         return ('~set:' if r < 0.25 else '~arr:') + ','.join(map(str, xs))
     if r < 0.12:
         return '~none'           # makes the generated function return None (see `body`)
+    if r < 0.2:
+        # round k6 (review t5, fidelity 4): ORDERED mappings - two OrderedDicts with the same items in another order are != for python,
+        # hence different combinations (`~od:ab:n` / `~od:ba:n`); a dict whose keys cannot be sorted (`~mk:n` = {None: n, 'a': n + 1},
+        # built in alternating insertion order by `unmark`) is ONE combination however it was built
+        return rng.choice(['~od:ab:1', '~od:ba:1', '~od:ab:1', '~od:ba:1', '~mk:1', '~mk:1', '~mk:2'])
     if r < 0.5:
         # -1 / -2 and 0 / 2**61-1 have the same python hash: distinct combinations whatever the cache keys on (seeded C18-u1: the cache
         # keyed by hash(key))
@@ -271,7 +276,14 @@ def seq_twin(rng, v):
         return list(v)
     if isinstance(v, dict):
         return tuple(sorted(v.items(), key=lambda kv: kv[0]))
+    if isinstance(v, str) and v.startswith('~od:ab:'):
+        return '~od:ba:' + v[7:]           # the same items in the other order: a different OrderedDict
+    if isinstance(v, str) and v.startswith('~od:ba:'):
+        return '~od:ab:' + v[7:]
     return v
+
+
+_MK = [0]
 
 
 class D2(dict):
@@ -298,6 +310,10 @@ def mark(v):
         return '~d2:%d' % v['x'] if list(v) == ['x'] and getattr(v, 'extra', None) == 'e' else '~d2?:%r' % (v,)
     if type(v) is L1:
         return '~l1:%d' % len(v) if list(v) == list(range(len(v))) else '~l1?:%r' % (v,)
+    if type(v) is collections.OrderedDict:
+        return '~od:%s:%d' % (''.join(v), v['a']) if sorted(v) == ['a', 'b'] and v['b'] == v['a'] + 1 else '~od?:%r' % (v,)
+    if type(v) is dict and len(v) == 2 and None in v and 'a' in v:
+        return '~mk:%d' % v[None] if v['a'] == v[None] + 1 else '~mk?:%r' % (v,)
     if isinstance(v, (set, frozenset)):
         return '~set:' + ','.join(str(int(x)) for x in sorted(v))
     # round j6: other arguments the key normalisation leaves unhashable, under the prefix the model reads as "unhashable, not an int array":
@@ -328,6 +344,14 @@ def unmark(v, rng=None):
         return D2({'x': int(v[4:])}, 'e')
     if isinstance(v, str) and v.startswith('~l1:'):
         return L1(int(v[4:]))
+    if isinstance(v, str) and v.startswith('~od:'):
+        n = int(v[7:])
+        return collections.OrderedDict((k, n + 'ab'.index(k)) for k in v[4:6])
+    if isinstance(v, str) and v.startswith('~mk:'):
+        n = int(v[4:])
+        _MK[0] += 1            # the SAME dict for python, built in the other insertion order every other time
+        items = [(None, n), ('a', n + 1)]
+        return dict(items if _MK[0] % 2 else items[::-1])
     if isinstance(v, str) and v.startswith('~set:'):
         xs = [int(x) for x in v[5:].split(',') if x]
         return set(reversed(xs))
